@@ -436,9 +436,13 @@ def rule_c(ctx):
             ok = len(pos) - 1 <= len(a.defaults) and all(d is not None for d in a.kw_defaults)
         ctx.ob(R, k.qname, f"{k.name}() is constructible without arguments", ok, "", (init or s).node)
         read_keys = set()
+        written_top = {(kk_,) for kk_ in kws}
         for x in ast.walk(l.node):
             if isinstance(x, ast.Subscript) and isinstance(x.slice, ast.Constant) and isinstance(x.slice.value, str) and (isinstance(x.value, ast.Call) and norm(x.value.func) == "np.load" or norm(x.value) in ("data", "npzdata")):
                 if not (isinstance(getattr(x, "_parent", None), ast.Subscript)):
+                    if (x.slice.value,) not in written_top and _dead_for_own_files(x, written_top):
+                        ctx.note(f"C18.c: {k.name}.load reads the optional key '{x.slice.value}' under `'{x.slice.value}' in data`; save never writes it (dead for files written by this code)")
+                        continue
                     read_keys.add(x.slice.value)
             if isinstance(x, ast.Call) and norm(x.func) == "data.get" and x.args and isinstance(x.args[0], ast.Constant):
                 read_keys.add(x.args[0].value)
@@ -509,6 +513,21 @@ def rule_d(ctx):
                    f"self.{a} depends on a constructor argument, is read by correct_array/correct_metadata, and load() never assigns it: a saved and re-read {k.name} falls back to the default", l.node)
         ctx.ob(R, k.qname, f"{k.name}: persistence closure analysed", True, f"reads {len(reads)} attributes, load assigns {sorted(loaded)[:8]}", l.node)
     ctx.floor(R, 5)
+
+
+def _dead_for_own_files(node, written):
+    """Is `node` (inside load) guarded by `'<key>' in <file data>` for a key that this class's save never writes?  Then it cannot run on
+    a file written by the same code."""
+    cur = node
+    while cur is not None:
+        par = getattr(cur, "_parent", None)
+        if isinstance(par, ast.If) and cur in par.body:
+            t = par.test
+            if isinstance(t, ast.Compare) and len(t.ops) == 1 and isinstance(t.ops[0], ast.In) and isinstance(t.left, ast.Constant) and isinstance(t.left.value, str):
+                if (t.left.value,) not in written:
+                    return True
+        cur = par
+    return False
 
 
 def rule_e(ctx):
@@ -584,6 +603,8 @@ def rule_e(ctx):
                 kp = keypath(st.value)
                 if not kp:
                     continue
+                if kp not in written and len(kp) == 1 and _dead_for_own_files(st, written):
+                    continue  # optional key that this save never writes
                 n += 1
                 ctx.instance(R)
                 w = written.get(kp)
@@ -606,6 +627,46 @@ def rule_e(ctx):
             ctx.instance(R)
             ctx.ob(R, l.qname, f"{k.name}: self.{A}, written under '{kp[0]}', is read back from that key", any(r == kp for r in restored[A]),
                    f"load assigns self.{A} from {[('.'.join(r) if r else 'something that is not in the file') for r in restored[A]]}, never from the stored '{kp[0]}'", l.node, evidence=True)
+        # ... and a restored attribute stays as it was read: what save wrote is the object's final state, so a modification after
+        # the restore (in load itself or in a method of self that load calls) is applied a second time on every reload
+        from .common import _inplace_writes
+
+        direct = {A for A, kps in restored.items() if any(kps) and any(kp_ in written for kp_ in kps if kp_)}
+        if direct:
+            me = l.params[0]
+            seen_m, todo = set(), [l]
+            while todo:
+                g = todo.pop()
+                if g in seen_m:
+                    continue
+                seen_m.add(g)
+                for c in ast.walk(g.node):
+                    if isinstance(c, ast.Call) and isinstance(c.func, ast.Attribute) and isinstance(c.func.value, ast.Name) and g.params and c.func.value.id == g.params[0]:
+                        if g is l and _dead_for_own_files(c, written):
+                            continue
+                        t = m.method(k, c.func.attr)
+                        if t is not None and t.name not in ("__init__",):
+                            todo.append(t)
+            for A in sorted(direct):
+                n += 1
+                ctx.instance(R)
+                bad = []
+                for g in seen_m:
+                    if not g.params:
+                        continue
+                    me_g = g.params[0]
+
+                    def is_t(e, A=A, me_g=me_g):
+                        while isinstance(e, ast.Subscript):
+                            e = e.value
+                        return isinstance(e, ast.Attribute) and e.attr == A and isinstance(e.value, ast.Name) and e.value.id == me_g
+                    for w_ in _inplace_writes(g.node, is_t):
+                        if g is l and (isinstance(w_, ast.Assign) or _dead_for_own_files(w_, written)):
+                            continue
+                        bad.append((g, w_))
+                ctx.ob(R, l.qname, f"{k.name}: self.{A} is not modified after it is restored from the file", not bad,
+                       "; ".join(f"{g.short}: `{norm(w_)[:70]}`" for g, w_ in bad[:3]) + f" -- reached from load: the stored self.{A} is already in its final state, the reloaded one is transformed once more",
+                       bad[0][1] if bad else l.node, evidence=True)
     ctx.floor(R, 6)
 
 
